@@ -82,6 +82,7 @@ type sched struct {
 	locks  map[*value]*lockState
 	wgs    map[*value]int
 	stats  struct{ switches, transitions int }
+	yieldOnUnlock bool // a lock release is a scheduling point (verifrt.YieldOnUnlock)
 	preemptBound int  // -1 = unbounded
 	preemptions  int
 	last         *gor // goroutine that ran most recently
@@ -566,6 +567,18 @@ func (i *interpreter) mutexUnlock(m *value) {
 		panic(runtimeErr("sync: unlock of unlocked mutex"))
 	}
 	l.writer = false
+	i.afterUnlock()
+}
+
+// afterUnlock: with YieldOnUnlock the release of a lock is a scheduling
+// point of its own. For data-race-free code this adds nothing (until its
+// next visible operation the releasing goroutine touches only its own data);
+// it is what exposes code that keeps using shared data after it has released
+// the lock that protects it.
+func (i *interpreter) afterUnlock() {
+	if i.sch.yieldOnUnlock && len(i.sch.gs) > 1 {
+		i.block(&pendOp{what: "after-unlock", cond: func() bool { return true }, fire: func() {}})
+	}
 }
 
 func (i *interpreter) rwRLock(m *value) {
@@ -579,6 +592,7 @@ func (i *interpreter) rwRUnlock(m *value) {
 		panic(runtimeErr("sync: RUnlock of unlocked RWMutex"))
 	}
 	l.readers--
+	i.afterUnlock()
 }
 
 func (i *interpreter) wgAdd(w *value, n int) {
